@@ -7,20 +7,22 @@ ap = argparse.ArgumentParser()
 ap.add_argument("dir"); ap.add_argument("prop")
 ap.add_argument("--needs", default=None); ap.add_argument("--origin", default=None); ap.add_argument("--demo", default=None)
 ap.add_argument("--confirmed", default=None)
+ap.add_argument("--repo", default="/repo", help="tree to apply the patch to (a clean scratch worktree at the same commit may be used for units that extract text; units that #[path]-include real files always read /repo)")
 a = ap.parse_args()
 d = os.path.abspath(a.dir)
 meta_p = os.path.join(d, "meta.json")
 meta = json.load(open(meta_p)) if os.path.exists(meta_p) else {}
-if subprocess.run(["git", "-C", "/repo", "diff", "--quiet"]).returncode != 0:
-    sys.exit("/repo not clean")
-r = subprocess.run(["git", "-C", "/repo", "apply", os.path.join(d, "patch.diff")], capture_output=True, text=True)
+REPO = a.repo
+if subprocess.run(["git", "-C", REPO, "diff", "--quiet"]).returncode != 0:
+    sys.exit(REPO + " not clean")
+r = subprocess.run(["git", "-C", REPO, "apply", os.path.join(d, "patch.diff")], capture_output=True, text=True)
 if r.returncode != 0:
     sys.exit("patch does not apply: " + r.stderr)
 t0 = time.time()
 try:
-    p = subprocess.run(["./check", a.prop, "--no-evidence"], cwd="/verif", capture_output=True, text=True)
+    p = subprocess.run(["./check", a.prop, "--no-evidence"], cwd="/verif", capture_output=True, text=True, env=dict(os.environ, VERIF_REPO=REPO))
 finally:
-    subprocess.run(["git", "-C", "/repo", "checkout", "--", "."])
+    subprocess.run(["git", "-C", REPO, "checkout", "--", "."])
 out = p.stdout + p.stderr
 open(os.path.join(d, "check_output.txt"), "w").write(out)
 lines = [l for l in out.split("\n") if re.search(r"VIOLATION|UNDECIDED|^OK |failed obligation|KNOWN-FINDING", l)]
@@ -28,7 +30,8 @@ files = re.findall(r"^\+\+\+ b/(\S+)", open(os.path.join(d, "patch.diff")).read(
 meta.update({
     "property": a.prop,
     "files_changed": files,
-    "check_cmd": "git -C /repo apply %s/patch.diff && ./check %s --no-evidence; git -C /repo checkout -- ." % (d, a.prop),
+    "check_cmd": "git -C %s apply %s/patch.diff && VERIF_REPO=%s ./check %s --no-evidence; git -C %s checkout -- ." % (REPO, d, REPO, a.prop, REPO),
+    "tree_used": REPO + (" (scratch worktree of /repo at the same commit, used because /repo was busy with another seed run)" if REPO != "/repo" else ""),
     "check_exit": p.returncode,
     "check_wall_s": round(time.time() - t0, 1),
     "detected": p.returncode == 1,
